@@ -2,9 +2,25 @@
 """Regenerates /verif/MANIFEST.json from the table below (claimed properties) and properties.jsonl."""
 import json
 CLAIMED = {
- "C01": ("§3 C01", "Every structural clause of the nesting argument is decided on each run by path-sensitive abstract evaluation of the go/ssa bodies: composition order and single invocation in execute, the leaf, BaseExecutor.Apply/PostExecute, WithDone/WithFailure, self-binding of all eight ToExecutor, the eight entry points. These are necessary conditions (breaking one changes which function invocations happen or what the caller receives); the behavioural statement over all stacks and histories is not decided."),
- "C02": ("§3 C02", "Decides the retry loop's licensing conditions (a further attempt only after PostExecute says not-Done, RecordResult and InitializeRetry return nil and the delay was waited), the OnFailure decision table for every ordering of failedAttempts/maxRetries and elapsed/maxDuration at once (linear normal form, so off-by-one errors are decided for all magnitudes), the ExceededError/ReturnLastFailure result, and ownership of the per-execution budget. Necessary conditions, not the behaviour over all scripts."),
- "C12": ("§3 C12", "Decides IsFailure as a 16+-row decision table against the documented rule, every registrar including per-argument capture of loop variables and the documented HandleResult restriction to error-free outcomes, AppliesToAny, errorAs' unwrap exhaustiveness, and that retry/breaker/fallback share the builder's BaseFailurePolicy. errors.Is/reflect are trusted."),
+ "C01": ("§3 C01", "Every structural clause of the nesting argument is decided on each run by path-sensitive abstract evaluation of the go/ssa bodies: composition order and single invocation in execute, the leaf, BaseExecutor.Apply/PostExecute, WithDone/WithFailure, self-binding of all eight ToExecutor, the eight entry points, plus the wrapper summaries of every policy executor. These are necessary conditions (breaking one changes which function invocations happen or what the caller receives); the behavioural statement over all stacks and histories is not decided."),
+ "C02": ("§3 C02", "Decides the retry loop's licensing conditions (a further attempt only after PostExecute says not-Done, RecordResult and InitializeRetry return nil and the delay was waited), the OnFailure decision table for every ordering of failedAttempts/maxRetries and elapsed/maxDuration at once (linear normal form, so off-by-one errors are decided for all magnitudes), the ExceededError/ReturnLastFailure result, the shared failure classification, and ownership of the per-execution budget. Necessary conditions, not the behaviour over all scripts."),
+ "C03": ("§3 C03", "Decides the breaker's machine skeleton (state ownership, the documented transition edges, transitionTo's summary including delay selection and listener dispatch) and its comparison logic as decision tables over all orderings of the compared quantities for the closed, open and half-open states, plus the counting ring's and timed buckets' bookkeeping invariants and the exclusive use of the configured clock. Window contents over time, rate rounding and metrics values are not decided."),
+ "C04": ("§3 C04", "Decides the admission gate (refused permit ⇒ non-nil ErrOpen result returned before innerFn), the permit pairing (admitted ⇒ exactly one record under the mutex on every returning path, each record releasing exactly one half-open permit), the half-open permit counter's guard and the open state's delay comparison including the boundary, and the breaker's lock discipline. The schedule clause about executions admitted before opening is not decided."),
+ "C05": ("§3 C05", "Decides the limiter's state updates exactly (refusal stores nothing request-dependent; grants advance the smooth slot by k intervals / subtract k permits; bursty refill capped at periodPermits), the max-wait comparison, that blocking acquires succeed only through the timer lasting the reserved wait, API delegation, and the executor's gate. The wait-time arithmetic for non-fitting requests and fairness are not decided."),
+ "C06": ("§3 C06", "Close to a complete structural argument modulo Go channel semantics and panics: capacity = maxConcurrency, exclusive ownership of the semaphore, success ⇔ exactly one send chosen in every acquire function, exactly one release after every admitted innerFn and none after a refusal."),
+ "C07": ("§3 C07", "Decides the exclusivity protocol (two CompareAndSwap(nil,·) on one per-attempt pointer, listener and Cancel only in the callback's success branch, timer stopped when the inner result wins), that the timer lasts exactly the configured limit and is armed per attempt, that ErrExceeded is produced only by the callback, and Timeout.IsFailure's table. Real elapsed time is not decided."),
+ "C08": ("§3 C08", "Decides the cancellation plumbing: inventory of all blocking operations (interruptible or reviewed), cancellation tests after every attempt and between wait and next attempt, cancel results returned as the cause, the execution's four state methods' protocol under one mutex, atomic cause+cancel for async executions. Promptness as time is not decided."),
+ "C09": ("§3 C09", "Decides the attempt bound (hedge k only on paths implying k ≤ maxHedges and only through the delay timer), per-wait delay computation, copy kinds and counters, the once-only delivery protocol of the attempt goroutine, cancellation of every other started attempt and not the winner, and the parent's cancellation re-test. Timing is not decided."),
+ "C10": ("§3 C10", "Decides the fallback wrapper path by path: applied iff PostExecute reports a handled failure and the execution is not cancelled, exactly once, with a copy carrying the failed result; output classified by the same IsFailure; unhandled results returned unchanged; the builders; the shared classification rules."),
+ "C11": ("§3 C11", "Decides PreExecute/PostExecute as decision tables (key precedence, Get/Set iff key non-empty, hit result shape, store condition) and that a hit short-circuits innerFn and PostExecute through BaseExecutor.Apply. The user's Cache is opaque."),
+ "C12": ("§3 C12", "Decides IsFailure as a decision table against the documented rule, every registrar including per-argument capture of loop variables and the documented HandleResult restriction to error-free outcomes, AppliesToAny, errorAs' unwrap exhaustiveness, and that retry/breaker/fallback share the builder's BaseFailurePolicy. errors.Is/reflect are trusted."),
+ "C13": ("§3 C13", "Decides the delay envelope's shape on every path: max(0, [min(·, maxDuration−elapsed)] jitter?(base)), the base's precedence and backoff clamp, jitter applied once and never stored, the random helpers' formulas, and that the next attempt is reachable only through the timer lasting getDelay's value. Magnitudes and float rounding are not decided."),
+ "C14": ("§3 C14", "Decides lock discipline (guarded-by with interprocedural needs-lock propagation, deferred unlock, lock inventory, acyclic lock order), spawn-shared variables, hand-off protocols, one fresh executor per execution, immutable configuration, private copies for user callbacks, and enumerates the executor composition matrix for unsynchronised per-execution state (one known finding). Race freedom is argued from happens-before structure, not from schedules; user code is out of scope."),
+ "C15": ("§3 C15", "Decides the publication order in record, its single call site after execute, Get blocking before any read, delegation of Result/Error/IsDone/Done, the shared execute path of sync and async entry points, and the atomicity of Cancel's cause with the context cancellation."),
+ "C16": ("§3 C16", "Decides, per listener field, the condition and multiplicity of its invocation on every path (decision tables for the executor and retry listeners, transition summaries for the breaker, wrapper summaries for the rest) and that every registered listener is invoked somewhere. Event counts for a given script follow from these per-path facts plus the C02/C09 bounds and are not computed."),
+ "C17": ("§3 C17", "Decides who may touch the four counters and by how much (hence Attempts = 1 + Retries + Hedges at every observation point), that record() runs exactly once after each user-function return and nowhere else, that RecordResult overwrites both last fields, the getters and flags, and the start-time writers."),
+ "C18": ("§3 C18", "Decides the adapters' structure: context merging (derivation from the caller's context, Background-only shortcuts, watcher), per-attempt request clone with fresh body, body kinds, gRPC pass-through, and the retryable classifications as decision tables. One known finding (premature cancel of the returned response's context). Bytes on the wire are not decided."),
+ "C19": ("§3 C19", "Decides the spawn inventory with per-site termination arguments, timer release on every path, cancellation of per-attempt merged contexts, and the necessary condition for closing discarded responses (one known finding). Live goroutine counts are not measured."),
 }
 TECH = "static analysis: path-sensitive abstract interpretation (predicate abstraction + constant propagation over go/ssa, no execution, no solver), decision tables, ownership/call-graph queries over the type-checked program"
 props=[json.loads(l) for l in open('/verif/properties.jsonl')]
